@@ -59,9 +59,9 @@ for bid, _len, _res in fin:
         popped.append(bytes(B.recv_bundle_pop_data(bid)))
     except Exception as err:
         popped.append('%s(%s)' % (type(err).__name__, err))
-print('  expected: two announcements -> two poppable transfers returning FIRST and SECOND')
+print('  expected (since the repair: a START with an ID still held is rejected): announcements and poppable transfers agree')
 print('  observed: pops ->', popped, '; items still held but unreachable:', [i.file.getvalue() for i in B._rx_bundles])
-if popped != [b'FIRST', b'SECOND']:
+if len(fin) != len(popped) or any(not isinstance(x, bytes) for x in popped) or B._rx_bundles:
     bad = True
 
 if bad:
